@@ -28,6 +28,10 @@ from . import C14 as base
 from . import session
 
 LEVEL = "other"
+IMPORTS = [
+    ("C05", ("C05.units",), "the request handed to the completer is the text up to the blanks right of the cursor's *byte* offset and the "
+                            "cursor ends at the *character* count: a unit mix-up makes a started argument look like a partial word"),
+]
 
 TRUNCATING = {'skip_while', 'take_while', 'take', 'skip', 'step_by', 'find', 'position', 'nth', 'last', 'next'}
 KEEPING = {'filter', 'for_each', 'iter', 'into_iter', 'copied', 'cloned', 'by_ref'}
